@@ -5,6 +5,7 @@ mod concretise;
 mod model;
 mod observe;
 mod project;
+mod query;
 mod reads;
 mod roundtrip;
 mod webanno;
